@@ -235,7 +235,7 @@ func parse_regexp_class_atom_escape(regexp_token *Token, regexp string, index in
 	if index+1 >= len(regexp) {
 		return nil, index + 1, NewParseError(regexp_token, "Unexpected end of regexp")
 	}
-	panic("PARSE ESCAPE CHARACTER")
+	return nil, index + 1, NewParseError(regexp_token, "Escape sequences inside a character class are not supported")
 }
 
 func parse_regexp_class_atom_string(regexp_token *Token, regexp string, index int) (*AstString, int, error) {
@@ -386,9 +386,9 @@ func parse_regexp_groups(regexp_token *Token, regexp string, index int) (AstLite
 			}
 			return &AstSubExpr{subexpr}, next_index + 1, nil
 		} else if marker == '=' {
-			panic("Positive lookahead unimplemented")
+			return nil, index, NewParseError(regexp_token, "Positive lookahead unimplemented")
 		} else if marker == '!' {
-			panic("Negative lookahead unimplemented")
+			return nil, index, NewParseError(regexp_token, "Negative lookahead unimplemented")
 		} else if marker == '<' {
 			// lookbehind or named capture group
 			if index+2 >= len(regexp) {
@@ -396,9 +396,9 @@ func parse_regexp_groups(regexp_token *Token, regexp string, index int) (AstLite
 			}
 			a := regexp[index+2]
 			if a == '=' {
-				panic("Positive lookbehind unimplemented")
+				return nil, index, NewParseError(regexp_token, "Positive lookbehind unimplemented")
 			} else if a == '!' {
-				panic("Negative lookahead unimplemented")
+				return nil, index, NewParseError(regexp_token, "Negative lookbehind unimplemented")
 			} else {
 				// named capture group
 				current_index := index + 2
